@@ -95,7 +95,9 @@ def _case(rng):
             tv = rng.choice(cand)
             where = dict(dims=tv['dims'], bits=[rng.randint(0, 1) for _ in tv['data']],
                          bydims=rng.random() < 0.5)
-        return dict(kind=kind, spec=spec, preds=preds, where=where, coords=coords, maskcoords=rng.random() < 0.2)
+        # the optional fill value of the new masked variables: cells that merely hold that value are not missing
+        fillarg = rng.choice([None, None, None, 0, 2, -1])
+        return dict(kind=kind, spec=spec, preds=preds, where=where, coords=coords, maskcoords=rng.random() < 0.2, fillarg=fillarg)
     # eval: variables of one shape
     noncoord = [v for v in spec['vars'] if v['name'] not in coords]
     if not noncoord:
@@ -162,9 +164,24 @@ def _chain_case(rng):
     return dict(kind='chain', specs=specs, steps=steps, coords=coords)
 
 
+def _twice_case(rng):
+    """two eval calls on one file object, the variable of the expression replaced under its name in between (by the first
+    in-place eval, by createVariable-like assignment): the second call sees the file as it is then; oracle only"""
+    while True:
+        spec = _base(rng)
+        dimnames = {d[0] for d in spec['dims']}
+        cand = [v for v in spec['vars'] if v['name'] not in dimnames and v['dims']]
+        if cand:
+            break
+    tv = rng.choice(cand)
+    tv['dtype'] = 'd'
+    tv['data'] = _vals(rng, len(tv['data']), False, tv['masked'])
+    return dict(kind='twice', spec=spec, var=tv['name'], how=rng.choice(['inplace', 'inplace', 'assign']), coords=[])
+
+
 def gen(rng, tier):
     n = 300 if tier == 'quick' else 10000
-    return [_case(rng) for _ in range(n)] + [_chain_case(rng) for _ in range(n // 6)]
+    return [_case(rng) for _ in range(n)] + [_chain_case(rng) for _ in range(n // 6)] + [_twice_case(rng) for _ in range(n // 15)]
 
 
 def _py(e):
@@ -197,6 +214,18 @@ def _flat(e):
 def impl(case):
     try:
         with lib.pnc_warnings():
+            if case['kind'] == 'twice':
+                f = pfile.build(case['spec'])
+                v = case['var']
+                with np.errstate(all='ignore'):
+                    if case['how'] == 'inplace':
+                        f.eval('%s = %s * 2' % (v, v), inplace=True)
+                        o = f.eval('%s = %s * 2' % (v, v), inplace=True)
+                    else:
+                        f.eval('FIRST = %s * 2' % v, inplace=True)
+                        f.variables[v] = f.variables[v] + 1          # the variable replaced under its name
+                        o = f.eval('SECOND = %s * 2' % v, inplace=True)
+                return dict(obs=pfile.observe(o))
             if case['kind'] == 'chain':
                 fs = [pfile.build(sp) for sp in case['specs']]
                 for f in fs:
@@ -226,6 +255,8 @@ def impl(case):
                     kw['where'] = arr
                     if w['bydims']:
                         kw['dims'] = tuple(w['dims'])
+                if case.get('fillarg') is not None:
+                    kw['fill_value'] = case['fillarg']
                 o = f.mask(coords=case['maskcoords'], **kw)
             else:
                 f = pfile.build(case['spec'])
@@ -239,7 +270,7 @@ def impl(case):
 
 def to_line(case, res):
     co = '.'.join(case['coords']) or '-'
-    if case['kind'] == 'chain':
+    if case['kind'] in ('chain', 'twice'):
         return 'c06 nop'            # no model question: two modelled steps in a row, judged by the oracle
     if case['kind'] == 'binop':
         return 'c06 binop %s %s %s %s' % (case['op'], co, ' '.join(pfile.encode(case['f1'])), ' '.join(pfile.encode(case['f2'])))
@@ -260,7 +291,7 @@ def _strip_flags(text):
 
 
 def agree(case, out, res):
-    if case['kind'] == 'chain':
+    if case['kind'] in ('chain', 'twice'):
         return None
     if 'err' in res:
         return None if out.startswith('err') else 'impl raised %s (%s), model %s' % (res['err'], res.get('msg'), out[:80])
@@ -320,6 +351,13 @@ def oracle(case, res):
             return None     # integers to negative powers etc. are numpy errors, not generated on purpose
         return 'raised %s %s' % (res['err'], res.get('msg'))
     got = pfile.parse_obs(res['obs'])
+    if case['kind'] == 'twice':
+        v = next(x for x in case['spec']['vars'] if x['name'] == case['var'])
+        a = np.ma.masked_array(_np(case['spec'], v))
+        if case['how'] == 'inplace':
+            return _cmp(case['var'], got['vars'].get(case['var'], dict(cells='-')), a * 4)
+        d = _cmp('FIRST', got['vars'].get('FIRST', dict(cells='-')), a * 2)
+        return d or _cmp('SECOND', got['vars'].get('SECOND', dict(cells='-')), (a + 1) * 2)
     if case['kind'] == 'chain':
         for vi, v in enumerate(case['specs'][0]['vars']):
             g = got['vars'].get(v['name'])
@@ -441,6 +479,8 @@ def witnesses():
 
 
 def nontrivial(case, res):
+    if case['kind'] == 'twice':
+        return 'err' not in res
     if case['kind'] == 'chain':
         return bool(case['coords'])
     if case['kind'] == 'binop':
